@@ -6,11 +6,15 @@ namespace Comet.Flat
 
 variable {V S : Type}
 
+theorem flushed_dim (s : State V) : (flushed s).dim = s.dim := rfl
+
 theorem step_dim (m : Metric V S) (s : State V) (op : Op V) : (step m s op).1.dim = s.dim := by
   cases op <;> simp only [step]
   · split
     · rfl
-    · split <;> rfl
+    · split
+      · rfl
+      · dsimp only; split <;> rfl
   · split
     · rfl
     · split <;> rfl
@@ -21,74 +25,19 @@ theorem run_dim (m : Metric V S) (s : State V) (ops : List (Op V)) : (run m s op
   | nil => rfl
   | cons op t ih => simp only [run, List.foldl_cons] at *; rw [ih, step_dim]
 
-/-- soft-deleted ids are always stored ids -/
-def DelSub (s : State V) : Prop := ∀ i ∈ s.deleted, i ∈ ids s
+/-- purging tombstoned entries does not change what the state means -/
+theorem eff_flushed (s : State V) : eff (flushed s) = eff s := by
+  simp [eff, flushed]
 
-theorem step_delSub (m : Metric V S) (s : State V) (op : Op V) (h : DelSub s) :
-    DelSub (step m s op).1 := by
-  cases op with
-  | add id v =>
-    simp only [step]
-    split
-    · exact h
-    · split
-      · exact h
-      · intro i hi
-        have := h i hi
-        simp only [ids, List.map_append, List.mem_append] at *
-        exact Or.inl this
-  | remove id =>
-    simp only [step]
-    split
-    · exact h
-    · next hex =>
-      split
-      · exact h
-      · intro i hi
-        simp only [List.mem_cons] at hi
-        rcases hi with rfl | hi
-        · simp only [ids, List.mem_map]
-          simp only [Decidable.not_not, List.any_eq_true] at hex
-          obtain ⟨p, hp, he⟩ := hex
-          exact ⟨p, hp, by simpa using he⟩
-        · exact h i hi
-  | flush =>
-    simp only [step]
-    split
-    · exact h
-    · intro i hi; cases hi
+theorem eff_append (s : State V) (id : Id) (v' : V) (h : id ∉ s.deleted) :
+    eff { dim := s.dim, vecs := s.vecs ++ [(id, v')], deleted := s.deleted } =
+      eff s ++ [(id, v')] := by
+  simp [eff, List.filter_append, h]
 
-theorem step_ids_sub (m : Metric V S) (s : State V) (op : Op V) :
-    ∀ i ∈ ids (step m s op).1, i ∈ ids s ∨ i ∈ addedIds [op] := by
-  intro i hi
-  cases op with
-  | add id v =>
-    simp only [step] at hi
-    split at hi
-    · exact Or.inl hi
-    · split at hi
-      · exact Or.inl hi
-      · simp only [ids, List.map_append, List.mem_append, List.map_cons, List.map_nil,
-          List.mem_singleton] at hi
-        rcases hi with hi | hi
-        · exact Or.inl hi
-        · exact Or.inr (by simp [addedIds, hi])
-  | remove id =>
-    simp only [step] at hi
-    split at hi
-    · exact Or.inl hi
-    · split at hi <;> exact Or.inl hi
-  | flush =>
-    simp only [step] at hi
-    split at hi
-    · exact Or.inl hi
-    · simp only [ids, List.mem_map, List.mem_filter] at hi ⊢
-      obtain ⟨p, ⟨hp, _⟩, rfl⟩ := hi
-      exact Or.inl ⟨p, hp, rfl⟩
-
-/-- one-step simulation -/
-theorem eff_step (m : Metric V S) (s : State V) (op : Op V)
-    (hadd : ∀ id v, op = .add id v → id ∉ s.deleted) :
+/-- one-step simulation: the model refines the live-list specification, for EVERY op
+    (since comet's Add purges a tombstone before re-adding its id, no freshness
+    hypothesis is needed) -/
+theorem eff_step (m : Metric V S) (s : State V) (op : Op V) :
     eff (step m s op).1 = specStep m s.dim (eff s) op := by
   cases op with
   | add id v =>
@@ -98,8 +47,12 @@ theorem eff_step (m : Metric V S) (s : State V) (op : Op V)
     · cases hp : m.pre v with
       | none => rfl
       | some v' =>
-        have := hadd id v rfl
-        simp [eff, List.filter_append, this]
+        dsimp only
+        by_cases hd : id ∈ s.deleted
+        · simp only [hd, if_true]
+          rw [eff_append (flushed s) id v' (by simp [flushed]), eff_flushed]
+        · simp only [hd, if_false]
+          exact eff_append s id v' hd
   | remove id =>
     simp only [step, specStep]
     split
@@ -132,36 +85,21 @@ theorem eff_step (m : Metric V S) (s : State V) (op : Op V)
     simp only [step, specStep]
     split
     · rfl
-    · simp [eff]
+    · exact eff_flushed s
 
-theorem eff_run (m : Metric V S) (s : State V) (ops : List (Op V))
-    (hdel : DelSub s) (hfresh : FreshAdds ops)
-    (hnew : ∀ i ∈ ids s, i ∉ addedIds ops) :
+theorem eff_run (m : Metric V S) (s : State V) (ops : List (Op V)) :
     eff (run m s ops) = ops.foldl (specStep m s.dim) (eff s) := by
   induction ops generalizing s with
   | nil => rfl
   | cons op t ih =>
     simp only [run, List.foldl_cons]
-    have hstep : eff (step m s op).1 = specStep m s.dim (eff s) op := by
-      apply eff_step
-      intro id v he hd
-      subst he
-      exact hnew id (hdel id hd) (by simp [addedIds])
-    have hfresh' : FreshAdds t := by
-      cases op <;> simp_all [FreshAdds, addedIds]
-    have hnew' : ∀ i ∈ ids (step m s op).1, i ∉ addedIds t := by
-      intro i hi
-      rcases step_ids_sub m s op i hi with h | h
-      · have := hnew i h
-        cases op <;> simp_all [addedIds]
-      · cases op <;> simp_all [FreshAdds, addedIds]
-    have := ih (step m s op).1 (step_delSub m s op hdel) hfresh' hnew'
+    have := ih (step m s op).1
     simp only [run] at this
-    rw [this, step_dim, hstep]
+    rw [this, step_dim, eff_step]
 
-theorem eff_run_init (m : Metric V S) (dim : Nat) (ops : List (Op V)) (hfresh : FreshAdds ops) :
+theorem eff_run_init (m : Metric V S) (dim : Nat) (ops : List (Op V)) :
     eff (run m (init dim) ops) = live m dim ops := by
-  have := eff_run m (init dim) ops (by intro i hi; cases hi) hfresh (by intro i hi; cases hi)
+  have := eff_run m (init dim) ops
   simpa [live, eff, init] using this
 
 /-- the scan loop only sees the effective list -/
